@@ -598,9 +598,9 @@ func comparatorIsTotal(less *ssa.Function) (ok bool, why string, decided bool) {
 		return ps{}, false
 	}
 	type atom struct {
-		proj   string
-		op     token.Token
-		l, r   int
+		proj string
+		op   token.Token
+		l, r int
 	}
 	atomOf := func(v ssa.Value) (atom, bool) {
 		switch x := v.(type) {
